@@ -61,7 +61,33 @@ def gen_float():
     return 'duckdb_encode_decode.hpp', out
 
 
-TARGETS = {'enc': ('GenEncode.v', gen_encode), 'float': ('GenFloat.v', gen_float)}
+TU_LOCK = '#include "global.hpp"\n#include "optimistic_lock.hpp"\n'
+
+
+def gen_lock():
+    u = Unit()
+    u.load(TU_LOCK, 'optimistic_lock', ['-DNDEBUG', '-DUNODB_SPINLOCK_LOOP_VALUE=1'])
+    out = ''
+    for nm, coq in (('is_write_locked', 'lw_is_write_locked'), ('is_free', 'lw_is_free'), ('is_obsolete', 'lw_is_obsolete'),
+                    ('set_locked_bit', 'lw_set_locked_bit')):
+        n = u.find(nm, None, 'version_type')
+        f = Fn(u, n, coq, this_fields={'version': 'version'})
+        out += f.translate()
+    n = u.find('write_unlock', None, 'atomic_version_type')
+    f = Fn(u, n, 'lw_write_unlock_word', mode='callarg:store')
+    f.input_calls = ('load_relaxed',)
+    out += f.translate()
+    for vid, v in u.vars.items():
+        if v.get('name') == 'obsolete_lock_word':
+            e, d = Fn(u, None, '').E(cxx2v.kids(v)[-1])
+            out += 'Definition lw_obsolete_word : Z := %s.\n\n' % e
+            break
+    else:
+        raise Unsupported('obsolete_lock_word not found')
+    return 'optimistic_lock.hpp version_type / atomic_version_type', out
+
+
+TARGETS = {'enc': ('GenEncode.v', gen_encode), 'float': ('GenFloat.v', gen_float), 'lock': ('GenLockWord.v', gen_lock)}
 
 
 def main(argv):
